@@ -31,6 +31,8 @@ func runC01(p *Prog, r *Report) {
 		loopRecv: "otMap", loopFn: "apply", loopCallee: "applyString", loopCalleeRecv: "otApplyContext", loopBudget: "maxLen"})
 	r.Explain = append(r.Explain, "R-DIV: every integer division or remainder in the shaping engine whose divisor is not a non-zero constant has a provably non-zero divisor (dominating test, switch cases, non-zero field/result/argument everywhere, 1<<n) or a reviewed reason: a zero divisor is a run-time panic.")
 	ruleDiv(p, r, []string{"harfbuzz", "shaping", "segmenter", "font"}, reviewedDivs(), 8)
+	r.Explain = append(r.Explain, "R-IDX (regression rule over slice accesses in the hand-written code of package harfbuzz): each access key (function / indexed field) of the frozen set sa/ridx_tables.go — the accesses whose bounds P-LIN derived from the function's own dominating tests on the pinned tree, among them the tests added by the fixes for font-supplied lookup, mark-set and feature indices — is still derivable.")
+	ruleIdx(p, r, "R-IDX", []string{"harfbuzz"}, ridxHarfbuzz, 80)
 	r.Assumptions = append(r.Assumptions,
 		"termination of loops (as opposed to recursion) is not decided",
 		"cluster monotonicity, rune/glyph count sums and output size proportional to input are NOT decided (runtime arithmetic)",
